@@ -40,6 +40,11 @@ def run(ctx):
     # ---- every key class has a constant name (and id when used in a coded position)
     R.rule("C08-a key constants", 100, "each key class carries constant id/name")
     key_classes = [c for c in S.keys_mod.classes.values() if S.is_key_class(c)]
+    # key classes defined in another module and imported into keys.py under their names
+    repo = ctx.repo
+    for nm_, (tm_, sym_) in S.keys_mod.imports.items():
+        if sym_ == nm_ and tm_ in repo.modules and nm_ in repo.modules[tm_].classes and S.is_key_class(repo.modules[tm_].classes[nm_]):
+            key_classes.append(repo.modules[tm_].classes[nm_])
     for kc in key_classes:
         kr = S.key_ref(kc)
         ok = isinstance(kr.name, str) and (kr.id is None or (isinstance(kr.id, int) and not isinstance(kr.id, bool)))
